@@ -35,6 +35,8 @@ def kind_of(obj):
         return "seq" if t in (list, tuple) else "set"
     # type-based tests only: isinstance() may consult obj.__class__, which a host object can make raise
     if issubclass(t, SCALARS) or issubclass(t, type) or t.__name__ in ("module", "traceback"):
+        if t not in SCALARS and not issubclass(t, type) and t.__name__ not in ("module", "traceback") and _inst_dict(obj):
+            return "obj"     # an instance of a scalar subclass that carries attributes of its own (enum members)
         return "leaf"
     n = t.__name__
     if "iterator" in n or "generator" in n or n in ("range_iterator", "enumerate", "zip", "map", "filter",
@@ -175,14 +177,24 @@ def app_frame_rule(filename, app_root, includes, excludes):
 
 # --------------------------------------------------------------------------------------------- limiter
 class RefLimiter:
-    """Reference rate limiter of C04/C10: a hit collects iff count, window, period and condition allow it."""
+    """Reference rate limiter of C04/C10, a function of the hit stamps alone: a hit collects iff count, window, period
+    and condition allow it.  ``allows`` answers True / False, or None where the property does not decide: a hit stamped
+    BEFORE an already recorded collection (a thread that stamped its hit, was pre-empted, and reached the limiter after a
+    later-stamped hit was recorded; or the wall clock set back) and at least a period away from every recorded stamp.
+    Collecting it is safe by the stamps; refusing it is what a limiter that remembers only its last collection must do to
+    stay safe - neither is held against the agent.  With a period of 0 (or less) nothing is ever too close, so such a hit
+    is demanded like any other."""
 
     def __init__(self, fire_count=1, fire_period_ms=1000, window=(0, 0)):
         self.fc = _parse_int(fire_count, 1)
         self.period_ns = _parse_int(fire_period_ms, 1000) * 1_000_000
         self.window = window
         self.count = 0
-        self.last = None
+        self.stamps = []
+
+    @property
+    def last(self):
+        return self.stamps[-1] if self.stamps else None
 
     def allows(self, ts):
         if self.fc != -1 and self.count >= self.fc:
@@ -192,13 +204,16 @@ class RefLimiter:
             return False
         if we and ts > we:
             return False
-        if self.last is not None and ts - self.last < self.period_ns:
-            return False
+        if self.period_ns > 0 and self.stamps:
+            if any(abs(ts - s_) < self.period_ns for s_ in self.stamps):
+                return False
+            if ts < max(self.stamps):
+                return None
         return True
 
     def record(self, ts):
         self.count += 1
-        self.last = ts
+        self.stamps.append(ts)
 
     def hit(self, ts, condition=True):
         if self.allows(ts) and condition:
